@@ -191,7 +191,14 @@ func NewReaderCat(in io.Reader, cat Catalog) Reader {
 		return newBinaryReaderBuf(br, cat)
 	}
 
-	return newTextReaderBuf(br, cat)
+	r := newTextReaderBuf(br, cat)
+	if err != nil && err != io.EOF {
+		// The input failed while we were sniffing the format. bufio has already
+		// forgotten the error, so record it now instead of treating what was
+		// read so far as the whole input.
+		r.(*textReader).explode(&IOError{err})
+	}
+	return r
 }
 
 // A reader holds common implementation stuff to both the text and binary readers.
